@@ -79,6 +79,19 @@ int main(void)
 		int r2 = v_snprintf(o2, cap, "a%s/%d.%ld-%" PRIi64 "%c%%%u %zu %02x %lx", "xy", (int) v, (long) v, (int64_t) v, 'q', (unsigned) v, (size_t) v, (unsigned) (v & 0xff), (unsigned long) v);
 		CHECK(r1 == r2 && strcmp(o1, o2) == 0, "snprintf cap=%zu '%s' vs '%s'", cap, o1, o2);
 	}
+	/* C99 truncation contract of a lone %s (C19 E_evspec_strfit relies on it): at most cap-1 characters + nil are
+	 * stored, nothing behind out[cap-1] is touched, the return value is the length of the WHOLE string */
+	for (int it = 0; it < 20000; it++) {
+		char src[64], o1[48], o2[48];
+		size_t len = rnd() % 61, cap = rnd() % 41;
+		for (size_t i = 0; i < len; i++) src[i] = (char) (1 + rnd() % 255);
+		src[len] = '\0';
+		memset(o1, 0x55, sizeof(o1));
+		memset(o2, 0x55, sizeof(o2));
+		int r1 = snprintf(o1, cap, "%s", src);
+		int r2 = v_snprintf(o2, cap, "%s", src);
+		CHECK(r1 == r2 && r2 == (int) len && memcmp(o1, o2, sizeof(o1)) == 0, "snprintf %%s truncation cap=%zu len=%zu r=%d/%d", cap, len, r1, r2);
+	}
 	if (bad) { fprintf(stderr, "libc model selftest: %d mismatches\n", bad); return 1; }
 	printf("libc model selftest ok\n");
 	return 0;
